@@ -13,8 +13,8 @@ use std::os::unix::fs::MetadataExt;
 
 pub const PROP: Prop = Prop { id: "C12", spec, run, replay };
 
-const ATOMS: [&str; 34] = [
-    "a", "b", "A", ".", "^", "$", "+", "(", "{", "|", "/", "-", "*", "?", "\\*", "\\?", "\\[", "\\\\", "\\a", "\\.", "[ab]", "[!a]", "[a-c]", "[]a]", "[!]a]", "[a-]", "[[:alpha:]]", "[![:digit:]a]", "[\\]]", "[[]", "[.]", "[", "]", "!",
+const ATOMS: [&str; 36] = [
+    "a", "b", "A", ".", "^", "$", "+", "(", "{", "|", "/", "-", "*", "?", "\\*", "\\?", "\\[", "\\\\", "\\a", "\\.", "[ab]", "[!a]", "[a-c]", "[]a]", "[!]a]", "[a-]", "[[:alpha:]]", "[![:digit:]a]", "[\\]]", "[[]", "[.]", "[!/]", "[/a]", "[", "]", "!",
 ];
 const SUB_ATOMS: [&str; 12] = ["a", "b", "*", "?", "\\*", "\\\\", "[ab]", "[!a]", "[]a]", "[", "]", "!"];
 const SUBJ: [u8; 15] = [b'a', b'b', b'A', b'c', b'.', b'/', b'\n', b'[', b']', b'!', b'-', b'\\', b'*', b'^', b'1'];
@@ -23,7 +23,7 @@ fn spec(t: Tier) -> Spec {
     Spec {
         id: "C12",
         level: "exploration",
-        rule: format!("pattern = sequence of atoms from {:?} (literals incl. regex metacharacters, * ?, backslash escapes, well-formed bracket expressions with negation/range/class/leading ]/escaped ]/inner [, stray [ ] !); subject = every non-empty string of <= k characters over {:?}. -lname: one directory of symbolic links whose targets are all the subjects; -name: files named by the '/'-free subjects; -path: the same files, pattern prefixed by the literal directory; -ilname/-iname/-ipath with case folding. Slices: {}; plus every pattern of <= 2 atoms given to -iname and to -name in the same expression; plus -name/-iname on starting points spelled N, ./N, N/, N//, N/., N/.., ., .., N/./., N/../N (subject = last path component as given). For each (pattern, subject) the real find's selection must equal fnmatch(): glibc fnmatch(3) (C locale, flags 0 / FNM_CASEFOLD) and the reference matcher written from the statement must agree, otherwise the pair is counted as oracle-undecided and not judged. evaluation = (primary, pattern, subject); non-trivial = pattern containing a special atom (not only literals)", ATOMS, SUBJ.iter().map(|c| (*c as char).to_string()).collect::<Vec<_>>(), t.pick("-lname atoms<=3 x k<=3 and 12-atom sub-alphabet<=3 x k<=3; other primaries atoms<=2 x k<=3", "-lname atoms<=4 x k<=3, atoms<=3 x k<=4, sub-alphabet<=5 x k<=3; other five primaries atoms<=3 x k<=3")),
+        rule: format!("pattern = sequence of atoms from {:?} (literals incl. regex metacharacters, * ?, backslash escapes, well-formed bracket expressions with negation/range/class/leading ]/escaped ]/inner [, '/' inside a bracket, stray [ ] !); subject = every non-empty string of <= k characters over {:?}. -lname: one directory of symbolic links whose targets are all the subjects; -name: files named by the '/'-free subjects; -path: the same files, pattern prefixed by the literal directory; -ilname/-iname/-ipath with case folding. Slices: {}; plus every pattern of <= 2 atoms given to -iname and to -name in the same expression; plus -name/-iname on starting points spelled N, ./N, N/, N//, N/., N/.., ., .., N/./., N/../N (subject = last path component as given). For each (pattern, subject) the real find's selection must equal fnmatch(): glibc fnmatch(3) (C locale, flags 0 / FNM_CASEFOLD) and the reference matcher written from the statement must agree, otherwise the pair is counted as oracle-undecided and not judged. evaluation = (primary, pattern, subject); non-trivial = pattern containing a special atom (not only literals)", ATOMS, SUBJ.iter().map(|c| (*c as char).to_string()).collect::<Vec<_>>(), t.pick("-lname atoms<=3 x k<=3 and 12-atom sub-alphabet<=3 x k<=3; other primaries atoms<=2 x k<=3", "-lname atoms<=4 x k<=3, atoms<=3 x k<=4, sub-alphabet<=5 x k<=3; other five primaries atoms<=3 x k<=3")),
         bound: json!({"atoms": ATOMS.len(), "sub_atoms": SUB_ATOMS.len(), "subject_alphabet": SUBJ.len()}),
         assumptions: vec![
             "ASCII only (glibc's C locale is bytewise)".into(),
